@@ -662,6 +662,8 @@ class WorldC06(World):
         res = kit.read(path, lambda fn: self.ck.read_reactions(fn, species=species), fault, 'read_reactions')
         if res[0] in ('absent', 'torn', 'fault-signalled'):
             return res[0]
+        if not readable:
+            return 'not a gas.inp/surf.inp with standard delimiters: only the fault clause was judged'
         md = self.models[tok['model']]
         surf = tok['kind'] == 'write_surf'
         ctx.probe('read-back-surf' if surf else 'read-back-gas')
